@@ -13,9 +13,10 @@ for d in sorted(glob.glob(V+'/seeded/*')):
     if only and name not in only: continue
     out=subprocess.run([V+'/tools/try_seed.sh',d],capture_output=True,text=True).stdout
     keys=[l.split()[1] for l in out.splitlines() if l.startswith(('violation','undecided'))]
+    status={l.split()[1]:l.split()[0] for l in out.splitlines() if l.startswith(('violation','undecided'))}
     meta=json.load(open(d+'/meta.json'))
     prop=meta['property']
-    det=[{'rule':k.split('/')[0],'expect_key':k} for k in keys]
+    det=[{'rule':k.split('/')[0],'expect_key':k,'status':status[k]} for k in keys]
     # keep only detections by rules that serve the seeded property first; others are listed separately
     own=[x for x in det if prop in rules.get(x['rule'],[])]
     other=[x for x in det if prop not in rules.get(x['rule'],[])]
